@@ -39,6 +39,8 @@ struct ClassicFam {
   static const bool self_merge_ok = true;
   // levels are the bits of n / 2k: an empty intermediate level is a zero bit below the top bit
   static bool convert_gap(uint32_t k, uint64_t n) { const uint64_t bp = n / (2ULL * k); return bp != 0 && (bp & (bp + 1)) != 0; }
+  static uint32_t large_k(bool mx) { return mx ? 32768 : 16384; }
+  template<typename K> static int level0_unsorted(const SK<K>&) { return -1; }   // not published by quantiles_sketch
   static uint64_t exact_cap(uint32_t k) { return 2ULL * k - 1; }
 
   // stated: base buffer of n mod 2k items plus one k-item level per set bit of n / 2k
